@@ -184,7 +184,7 @@ class SGen(object):
                     inner += self.sort(scope)
             if r.random() < 0.3:
                 self.f('with-param')
-                inner += '<xsl:with-param name="w" select="%s"/>' % aesc(self.expr(r.choice(['num', 'str', 'ns']), scope, 1))
+                inner += self.with_param('w', scope, ['num', 'str', 'ns'])
             return '<xsl:apply-templates%s%s>%s</xsl:apply-templates>' % (sel, ms, inner) if inner else '<xsl:apply-templates%s%s/>' % (sel, ms)
         if k < 0.58 and not leaf:
             self.f('for-each')
@@ -255,10 +255,21 @@ class SGen(object):
             return '<xsl:processing-instruction name="%s">%s</xsl:processing-instruction>' % (r.choice(['pi', 'out']), r.choice(['d', '<xsl:value-of select="count(*)"/>', '']))
         if k < 0.97 and self.named and not leaf:
             self.f('call-template')
-            return '<xsl:call-template name="%s"><xsl:with-param name="d" select="2"/><xsl:with-param name="w" select="%s"/></xsl:call-template>' % (
-                r.choice(self.named), aesc(self.expr(r.choice(['num', 'str']), scope, 1)))
+            return '<xsl:call-template name="%s"><xsl:with-param name="d" select="2"/>%s</xsl:call-template>' % (r.choice(self.named), self.with_param('w', scope, ['num', 'str']))
         self.f('value-of')
         return '<xsl:value-of select="%s"/>' % aesc(self.expr('str', scope, 1))
+
+    def with_param(self, name, scope, types):
+        """the three ways of giving a parameter a value: select, content (a result tree fragment), nothing (the empty string, NOT the default)"""
+        r = self.r
+        k = r.random()
+        if k < 0.6:
+            return '<xsl:with-param name="%s" select="%s"/>' % (name, aesc(self.expr(r.choice(types), scope, 1)))
+        if k < 0.8:
+            return '<xsl:with-param name="%s">%s<xsl:value-of select="%s"/></xsl:with-param>' % (name, r.choice(['', 'c', ' ']), aesc(self.expr('str', scope, 1)))
+        if k < 0.95:
+            return '<xsl:with-param name="%s"/>' % name
+        return '<xsl:with-param name="nosuchparam" select="1"/>'
 
     # ---- top level ---------------------------------------------------------------------------
     def stylesheet(self, output='xml', imports=0, strip=None):
